@@ -50,7 +50,7 @@ Done == phase = "connected" /\ Len(facts) = budget.facts
 Expect == [ arena |-> arena, edges |-> edges, facts |-> facts, expect |-> Proj,
             pairs |-> IF WithPairs THEN SimPairs ELSE <<>>,
             paths |-> IF WithExtras THEN PathPairs ELSE <<>>,
-            sets |-> IF WithExtras THEN SetInfos ELSE <<>> ]
+            sets |-> IF WithExtras /\ Cardinality(Terms) <= 4 THEN SetInfos ELSE <<>> ]
 Emit == Done => PrintT(<<"REPLAY", ToJson(Expect)>>)
 
 RecsSim == [k \in Kinds |-> IF k = "gene" THEN {1, 2, 3} ELSE IF k = "omim" THEN {1, 2} ELSE {1}]
